@@ -45,13 +45,17 @@ def run(prop, tier, seed=0, extra=None):
     t0 = time.time() - (extra or {}).get('wall_s', 0)
     templates = select_templates(prop, tier)
     tmap = {t.name: t for t in templates}
-    results = runner.explore_all(templates, hash_orders=hash_orders(tier), budget_paths=5000, budget_s=1500 if tier == 'thorough' else 600)
-    inconclusive = []
+    results = runner.explore_all(templates, hash_orders=hash_orders(tier), budget_paths=5000, budget_s=3600 if tier == 'thorough' else 900)
+    inconclusive = []; notes = []
     not_covered = []
     for (tn, ho), r in sorted(results.items()):
         if r.get('status') != 'ok':
             msg = 'template %s (%s): %s' % (tn, ho, r.get('reason', '?')[:300])
-            inconclusive.append(msg); not_covered.append(msg)
+            not_covered.append(msg)
+            # out of wall budget: the shape is reported as not covered (evidence + NOTE line), the verdict is about everything explored;
+            # anything else (unsupported construct, executor error) leaves the check inconclusive
+            if r.get('reason', '').startswith('Budget'): notes.append(msg)
+            else: inconclusive.append(msg)
     n_valid, mism, nat = runner.validate_native(templates, results)
     bad_records = set()
     for cid, d in mism:
@@ -78,7 +82,7 @@ def run(prop, tier, seed=0, extra=None):
         base = [t for t in templates if t.name in qn and not any(op[0] in ('ematch', 'mmatch', 'rewrite', 'extract') for op in t.ops)]      # the quick catalogue (the large thorough shapes exceed the budget under the checks build)
         r2 = runner.explore_all(base, features=('checks',), hash_orders=('ins',), budget_paths=5000, budget_s=1500)
         for (tn, ho), r in sorted(r2.items()):
-            if r.get('status') != 'ok': inconclusive.append('checks build, template %s: %s' % (tn, r.get('reason', '?')[:300]))
+            if r.get('status') != 'ok': (notes if r.get('reason', '').startswith('Budget') else inconclusive).append('checks build, template %s: %s' % (tn, r.get('reason', '?')[:300]))
         nv2, mism2, _ = runner.validate_native(base, r2, features=('checks',))
         for cid, d in mism2[:3]: inconclusive.append('checks build: symbolic record %s disagrees with the native run: %s' % (cid, json.dumps(d, default=str)[:300]))
         bad2 = {tuple(cid.split('|')[:1]) for cid, d in mism2}
@@ -214,7 +218,7 @@ def run(prop, tier, seed=0, extra=None):
             if km: known_hits.setdefault(key, 'key=%s %s' % (key, km['text']))
             else: violations[key] = (key, path, text)
     common.write_evidence(prop, tier, 'model_checking', cov, assumptions, time.time() - t0, len(violations), seed)
-    return common.finish(prop, list(violations.values()), list(known_hits.items()), inconclusive)
+    return common.finish(prop, list(violations.values()), list(known_hits.items()), inconclusive, notes)
 
 def first_diff(a, b):
     if a['panic'] != b['panic']: return (len(a['steps']), 'panic')
